@@ -154,7 +154,7 @@ def shards(tier, seed):
     sh = [("status", k) for k in kinds()] + [("generic", tr) for tr in ("connected", "ucmm", "ucsend")] + [("multi", op) for op in ("read", "write")]
     sh += [("encap", "x"), ("lifecycle", "x")]
     sh += [("mutate", k) for k in MUT_KINDS]
-    sh += [("status", "readfrag-middle", "debuglog"), ("status", "write", "debuglog"), ("multi", "read", "debuglog"), ("encap", "x", "debuglog"), ("mutate", "read-multi", "debuglog")]
+    sh += [("status", "readfrag-middle", "debuglog"), ("status", "write", "debuglog"), ("multi", "read", "debuglog"), ("multi", "write", "debuglog"), ("mutate", "read-multi", "python-O"), ("mutate", "generic-connected-typed", "python-O"), ("encap", "x", "python-O"), ("status", "rmw", "python-O"), ("encap", "x", "debuglog"), ("mutate", "read-multi", "debuglog")]
     return sh
 
 
@@ -276,12 +276,15 @@ def run_multi(rep, op, tier):
     """Per-service status vectors inside a multiple service packet."""
     import itertools
 
-    vals = (0, 4, 5, 6, 0xFF)
+    vals = (0, 4, 5, 6, 0xFF, 0x2A)  # 0x2A: a status the library has no text for
     wd = World()
     call(wd.d.open)
     tags = ["a_dint", "an_ary{4}", "a_udt"]
-    for n in (1, 2, 3):
-        for vec in itertools.product(vals, repeat=n):
+    # all vectors over `vals` for 2 and 3 services, and every status byte next to a good service (in front of and behind it)
+    vectors = [v for n in (2, 3) for v in itertools.product(vals, repeat=n)] + [v for s in range(1, 256) if s not in vals for v in ((0, s), (s, 0))]
+    for n in (0,):
+        for vec in vectors:
+            n = len(vec)
             if n == 1:
                 continue  # single requests do not use the multi-service packet
             state = {"i": -1}
@@ -322,7 +325,7 @@ def run_multi(rep, op, tier):
             for clause, detail in probs[:2]:
                 rep.violation(f"multi-service/{op}/{clause}", f"{op} of {n} services with status vector {[hex(x) for x in vec]}: {detail}", {"kind": "multi", "op": op, "vec": list(vec)})
     wd.close()
-    rep.sample({"multi_service": op, "vectors": "all over {0,4,5,6,0xFF} for 2 and 3 services"})
+    rep.sample({"multi_service": op, "vectors": "all over {0,4,5,6,0xFF,0x2A} for 2 and 3 services; every status 1..255 beside a good service"})
 
 
 RESULT_OPS = ("generic-connected", "generic-unconnected", "read", "write", "read-multi", "write-multi", "readfrag", "writefrag", "rmw")
@@ -447,6 +450,11 @@ MUT_KINDS = {
     "forward-open": ("cip", True, lambda wd: wd.d.generic_message(service=0x0E, class_code=0x99, instance=1), W.CMD_RRDATA, 1, 42),
     "generic-unconnected": ("cip", True, lambda wd: wd.d.generic_message(service=0x0E, class_code=0x99, instance=1, connected=False, unconnected_send=True), W.CMD_RRDATA, 1, 42),
     "generic-connected": ("cip", True, lambda wd: wd.d.generic_message(service=0x0E, class_code=0x99, instance=1), W.CMD_UNITDATA, 1, 48),
+    # the same with a data type for the reply data (a cut reply no longer decodes)
+    "generic-connected-typed": ("cip", True, lambda wd: wd.d.generic_message(service=0x0E, class_code=0x99, instance=1, data_type=__import__("pycomm3").UINT), W.CMD_UNITDATA, 1, 48),
+    "generic-unconnected-typed": ("cip", True, lambda wd: wd.d.generic_message(service=0x0E, class_code=0x99, instance=1, connected=False, unconnected_send=True, data_type=__import__("pycomm3").UINT), W.CMD_RRDATA, 1, 42),
+    "generic-ucmm-typed-struct": ("cip", True, lambda wd: wd.d.generic_message(service=0x0E, class_code=0x99, instance=1, connected=False, route_path=False,
+                                                                             data_type=__import__("pycomm3").Struct(__import__("pycomm3").USINT("a"), __import__("pycomm3").USINT("b"))), W.CMD_RRDATA, 1, 42),
     "read": ("logix", True, lambda wd: wd.d.read("a_dint"), W.CMD_UNITDATA, 1, 48),
     "read-struct": ("logix", True, lambda wd: wd.d.read("a_udt"), W.CMD_UNITDATA, 1, 48),
     "read-multi": ("logix", True, lambda wd: wd.d.read("a_dint", "a_udt", "an_ary{4}"), W.CMD_UNITDATA, 1, 48),
